@@ -19,9 +19,14 @@ type SolverCfg struct {
 	WorkDir      string
 	CrossCheck   bool // re-prove discharged obligations on a second back end
 	Jobs         int
+	Expect       func(name string) bool // obligations the lock expects to be discharged: retried with a longer timeout before they are reported undecided
 }
 
-func (fc *FnCtx) header() string {
+func (fc *FnCtx) header() string { return fc.headerFor(false) }
+
+// headerFor: declarations for a query; must-sat (cover) queries leave out the quantified spec-function axioms, which
+// make the solver answer "unknown" instead of "sat" (a weaker vacuity check for the few functions that have such axioms).
+func (fc *FnCtx) headerFor(mustSat bool) string {
 	var b strings.Builder
 	b.WriteString(prelude)
 	for _, s := range fc.g.userSMT {
@@ -36,6 +41,12 @@ func (fc *FnCtx) header() string {
 	for _, d := range fc.q.recDefs {
 		b.WriteString(d)
 		b.WriteString("\n")
+	}
+	if !mustSat {
+		for _, a := range fc.q.axioms {
+			b.WriteString(a)
+			b.WriteString("\n")
+		}
 	}
 	return b.String()
 }
@@ -219,7 +230,18 @@ func (fc *FnCtx) sliceAsserts(o *Obligation) []int {
 	}
 	var idx []int
 	for i := 0; i < o.NAsserts; i++ {
-		if used[i] > 0 || strings.HasPrefix(fc.q.asserts[i], "(forall ((ea Ref)") {
+		a := fc.q.asserts[i]
+		keep := used[i] > 0
+		if !keep && strings.HasPrefix(a, "(forall ((ar Ref))") {
+			// array typing axiom: kept whenever its array version is relevant at all
+			for _, t := range fc.assertSyms[i] {
+				if rel[t] > 0 {
+					keep = true
+					break
+				}
+			}
+		}
+		if keep {
 			idx = append(idx, i)
 		}
 	}
@@ -234,7 +256,7 @@ func (fc *FnCtx) queryText(o *Obligation, withModel bool) string {
 func (fc *FnCtx) queryTextSliced(o *Obligation, withModel bool, sliced bool) string {
 	var b strings.Builder
 	b.WriteString("; obligation " + o.Name() + "\n")
-	b.WriteString(fc.header())
+	b.WriteString(fc.headerFor(o.MustSat))
 	if sliced {
 		for _, i := range fc.sliceAsserts(o) {
 			b.WriteString("(assert " + fc.q.asserts[i] + ")\n")
@@ -262,15 +284,19 @@ func (fc *FnCtx) queryTextSliced(o *Obligation, withModel bool, sliced bool) str
 	return b.String()
 }
 
-// incremental text: all obligations of the function in one session
-func (fc *FnCtx) incrementalText(timeoutMs int) string {
+// incremental text: the obligations obls[lo:hi] of the function in one solver session (all assertions up to each
+// obligation's position are asserted, only the goals of the chunk are checked)
+func (fc *FnCtx) incrementalText(timeoutMs int, lo, hi int) string {
 	var b strings.Builder
 	fmt.Fprintf(&b, "(set-option :timeout %d)\n", timeoutMs)
 	b.WriteString(fc.header())
 	n := 0
-	for _, o := range fc.obls {
+	for i, o := range fc.obls[:hi] {
 		for ; n < o.NAsserts; n++ {
 			b.WriteString("(assert " + fc.q.asserts[n] + ")\n")
+		}
+		if i < lo {
+			continue
 		}
 		fmt.Fprintf(&b, "(push 1)\n(assert (not %s))\n(check-sat)\n(pop 1)\n", o.Goal)
 	}
@@ -322,34 +348,53 @@ func solveFunction(fc *FnCtx, cfg SolverCfg) {
 			break
 		}
 	}
-	// phase 1: incremental z3
-	incFile := filepath.Join(dir, "all.smt2")
-	os.WriteFile(incFile, []byte(fc.incrementalText(cfg.IncTimeoutMs)), 0o644)
-	t0 := time.Now()
-	budget := time.Duration(len(fc.obls)*cfg.IncTimeoutMs)*time.Millisecond + 20*time.Second
-	out, _ := runSolver(context.Background(), solvers[0].bin, solvers[0].args, incFile, budget)
-	el := time.Since(t0).Seconds()
-	verdicts := resLineRe.FindAllStringSubmatch(out, -1)
-	if strings.Contains(out, "(error") && len(verdicts) < len(fc.obls) {
-		// a malformed query is a tool problem: surface it
-		fc.err = fmt.Errorf("solver error in %s: %s", fc.name, firstLine(out[strings.Index(out, "(error"):]))
-	}
+	// phase 1: incremental z3, in chunks that run in parallel
+	const chunk = 48
 	var pending []*Obligation
-	for i, o := range fc.obls {
-		v := "unknown"
-		if i < len(verdicts) {
-			v = verdicts[i][1]
+	var pmu sync.Mutex
+	var cwg sync.WaitGroup
+	csem := make(chan struct{}, cfg.Jobs)
+	for lo := 0; lo < len(fc.obls); lo += chunk {
+		hi := lo + chunk
+		if hi > len(fc.obls) {
+			hi = len(fc.obls)
 		}
-		o.TimeS = el / float64(len(fc.obls))
-		switch {
-		case v == "unsat" && !o.MustSat:
-			o.Verdict, o.Solver = "discharged", solvers[0].name+"(incremental)"
-		case v == "sat" && o.MustSat:
-			o.Verdict, o.Solver = "discharged", solvers[0].name+"(incremental)"
-		default:
-			pending = append(pending, o)
-		}
+		cwg.Add(1)
+		csem <- struct{}{}
+		go func(lo, hi int) {
+			defer cwg.Done()
+			defer func() { <-csem }()
+			incFile := filepath.Join(dir, fmt.Sprintf("all_%d.smt2", lo/chunk))
+			os.WriteFile(incFile, []byte(fc.incrementalText(cfg.IncTimeoutMs, lo, hi)), 0o644)
+			t0 := time.Now()
+			budget := time.Duration((hi-lo)*cfg.IncTimeoutMs)*time.Millisecond + 20*time.Second
+			out, _ := runSolver(context.Background(), solvers[0].bin, solvers[0].args, incFile, budget)
+			el := time.Since(t0).Seconds()
+			verdicts := resLineRe.FindAllStringSubmatch(out, -1)
+			pmu.Lock()
+			defer pmu.Unlock()
+			if strings.Contains(out, "(error") && len(verdicts) < hi-lo {
+				// a malformed query is a tool problem: surface it
+				fc.err = fmt.Errorf("solver error in %s: %s", fc.name, firstLine(out[strings.Index(out, "(error"):]))
+			}
+			for i, o := range fc.obls[lo:hi] {
+				v := "unknown"
+				if i < len(verdicts) {
+					v = verdicts[i][1]
+				}
+				o.TimeS = el / float64(hi-lo)
+				switch {
+				case v == "unsat" && !o.MustSat:
+					o.Verdict, o.Solver = "discharged", solvers[0].name+"(incremental)"
+				case v == "sat" && o.MustSat:
+					o.Verdict, o.Solver = "discharged", solvers[0].name+"(incremental)"
+				default:
+					pending = append(pending, o)
+				}
+			}
+		}(lo, hi)
 	}
+	cwg.Wait()
 	// phase 2: portfolio on the rest
 	var wg sync.WaitGroup
 	sem := make(chan struct{}, cfg.Jobs)
@@ -360,6 +405,14 @@ func solveFunction(fc *FnCtx, cfg SolverCfg) {
 			defer wg.Done()
 			defer func() { <-sem }()
 			portfolio(fc, o, dir, cfg, usesLambda)
+			if o.Verdict == "undecided" && cfg.Expect != nil && cfg.Expect(o.Name()) {
+				long := cfg
+				long.QueryTimeout = 6 * cfg.QueryTimeout
+				portfolio(fc, o, dir, long, usesLambda)
+				if o.Verdict == "discharged" {
+					o.Solver += "(retry)"
+				}
+			}
 		}(o)
 	}
 	wg.Wait()
@@ -402,7 +455,7 @@ func portfolio(fc *FnCtx, o *Obligation, dir string, cfg SolverCfg, usesLambda b
 		launch(s.name, s.bin, s.args, file, false)
 	}
 	// in parallel: the directed cone of influence of the goal (sound for unsat only; a sat answer there is ignored)
-	if !o.MustSat && o.NAsserts > 300 && os.Getenv("GOVC_NOSLICE") == "" {
+	if !o.MustSat && o.NAsserts > 40 && os.Getenv("GOVC_NOSLICE") == "" {
 		fc.sliceMu.Lock()
 		txt := fc.queryTextSliced(o, false, true)
 		fc.sliceMu.Unlock()
